@@ -331,6 +331,34 @@ def _check(prog, pdf, part, ordered, idx_ok, stages, observe=None):
                         m = ("values", m[1])   # frames._classify reads "[index]:" in a VALUES message as an index mismatch
                 except Exception as ex:  # noqa: BLE001  comparison itself failed: treat as a mismatch with the reason
                     m = ("uncomparable", "%s: %s" % (type(ex).__name__, ex))
+                if m is not None and _aligned_by_index_shuffle(ddf, val, expected):
+                    # Calibration (after dask repair aabdcf7): an elementwise operation between two collections whose
+                    # co-alignment dask cannot prove and whose divisions are unknown is aligned by a shuffle on the index,
+                    # which promises the right rows per index label but no row order.  With a unique index the result is
+                    # therefore judged after sorting both sides by index.
+                    import pandas as pd
+
+                    try:
+                        if expected.index.is_unique:
+                            m = _cmp(val.sort_index(), expected.sort_index(), ordered, idx_ok)
+                        else:
+                            # duplicated labels: rows are compared as a multiset of (label, values)
+                            def _canon(x):
+                                f = x.to_frame(name="__v") if isinstance(x, pd.Series) else x
+                                f = f.reset_index()
+                                f.columns = [str(c) for c in f.columns]
+                                return f.sort_values(list(f.columns), kind="stable", key=lambda c: c.astype(str)).reset_index(drop=True)
+                            m = _cmp(_canon(val), _canon(expected), True, idx_ok)
+                    except Exception as ex:  # noqa: BLE001
+                        m = ("uncomparable", "%s: %s" % (type(ex).__name__, ex))
+                    if observe is not None:
+                        observe("index_shuffle_aligned", True)
+                if m is not None and not idx_ok and _aligns_on_labels_after_merge(prog):
+                    # Calibration (after dask repair aabdcf7): the row labels of a dask merge result are partition-local
+                    # (documented divergence from pandas; the generator marks them "not comparable").  An elementwise
+                    # operation that has to ALIGN two collections derived from such a result aligns on those labels, so
+                    # its outcome is not defined by pandas' labels: outside the domain.
+                    return ("reject", "label alignment on the partition-local row labels of a merge result")
                 if m is not None and _float_tie(prog, pdf, dec, val, ordered, idx_ok):
                     # a value sits exactly on a threshold computed by a float reduction (x >= x.mean()): pandas and dask
                     # sum in different orders, the last bit decides the row.  Float reassociation, not a disagreement.
@@ -344,6 +372,47 @@ def _check(prog, pdf, part, ordered, idx_ok, stages, observe=None):
         if fails:
             return ("bad", fails)
         return ("ok", None)
+
+
+def _aligns_on_labels_after_merge(prog):
+    """A live multi-operand elementwise / concat(axis=1) node with a merge among its ancestors."""
+    from vf.gen import c43_programs as P
+
+    nodes = prog["nodes"]
+    lv = set(P.live(prog))
+
+    def ancestors(i, seen):
+        for r in P.refs(nodes[i]):
+            if r not in seen:
+                seen.add(r)
+                ancestors(r, seen)
+        return seen
+
+    for i in lv:
+        op = nodes[i][0]
+        if op in ("sbin", "cbin", "fbin", "where", "concat1", "sfilt", "filt", "assign"):
+            rs = [r for r in P.refs(nodes[i])]
+            if len(set(rs)) >= 2 and any(nodes[a][0] == "merge" for a in ancestors(i, set())):
+                return True
+    return False
+
+
+def _aligned_by_index_shuffle(ddf, val, expected):
+    """True when the base frame has unknown divisions and both results are pandas objects over the same unique index labels
+    in a different order (the only freedom an index-shuffle alignment has); duplicated labels are allowed."""
+    import pandas as pd
+
+    try:
+        if ddf.known_divisions:
+            return False
+        if not isinstance(val, (pd.Series, pd.DataFrame)) or type(val) is not type(expected):
+            return False
+        a, b = val.index, expected.index
+        if len(a) != len(b):
+            return False
+        return (not a.equals(b) or not b.is_unique) and a.sort_values().equals(b.sort_values())
+    except Exception:  # noqa: BLE001
+        return False
 
 
 def _roundf(x):
